@@ -27,10 +27,10 @@ for pid in all_ids:
 m = {
     "version": 1,
     "setup_cmd": "cd /verif && sh run/setup.sh",
-    "hooks": {"guard": "cargo feature `verif` of circomspect-parser (parser/Cargo.toml [features] verif = [])",
-              "enable": "tools/replay/parser depends on circomspect-parser with features = [\"verif\"] (path dependency on /repo/parser); the Verus checks need no hook, they read source text",
+    "hooks": {"guard": "cargo feature `verif` (off by default) of circomspect-parser (parser/Cargo.toml) and of circomspect-program-structure (program_structure/Cargo.toml)",
+              "enable": "tools/replay/parser depends on circomspect-parser with features = [\"verif\"] (re-export of the private comment stripper); tools/replay/ps depends on circomspect-program-structure with features = [\"verif\"] (pass budget standing in for the propagation time box, used by the bounded C20 engine); the Verus checks need no hook: they read source text, and statements under #[cfg(feature = \"verif\")] are dropped from the verified text (rule R0: guard-off code)",
               "baseline_off_cmd": "cd /repo && cargo test --workspace --no-fail-fast --offline",
-              "source_commits": ["91d3267"], "add_only": True},
+              "source_commits": ["91d3267", "47dded0"], "add_only": True},
     "engines": [{"name": "verus-contracts", "path": "/verif/run/check.py", "serves_properties": [c["property_id"] for c in checks],
                  "kind_free_text": "Verus 0.2026.09.13 on functions extracted mechanically from /repo on every run (tools/vx), contracts in units/*/contracts.vc"}],
     "checks": checks,
